@@ -15,7 +15,9 @@ import fontTools.cu2qu.ufo as CU
 import fontTools.misc.bezierTools as BT
 from fontTools.cu2qu.errors import ApproxNotFoundError
 
-shim_all(CQ, QC, CU, BT)
+import fontTools.pens.qu2cuPen as QP
+import fontTools.pens.filterPen as FP
+shim_all(CQ, QC, CU, BT, QP, FP)
 
 DEPTH_CAP = 10
 
@@ -309,3 +311,100 @@ def segments_are_connected(seq):
             conds.append(conj([eq(args[0][0], begin[0]), eq(args[0][1], begin[1])]))
         conds.append(conj([eq(args[-1][0], end[0]), eq(args[-1][1], end[1])]))
     ob('each-curve-starts-where-the-previous-ended', conj(conds))
+
+
+# ------------------------------------------------------------------------------------------------ font-level conversion with per-font tolerances
+class _DuckGlyph:
+    """what cu2qu.ufo needs of a glyph: draw(pen), clearContours(), getPen()"""
+
+    def __init__(self, events):
+        self.value = list(events)
+
+    def draw(self, pen):
+        for op, args in self.value:
+            getattr(pen, op)(*args)
+
+    def drawPoints(self, pointPen):
+        from fontTools.pens.pointPen import SegmentToPointPen
+        self.draw(SegmentToPointPen(pointPen, guessSmooth=False))
+
+    def clearContours(self):
+        self.value = []
+
+    def __len__(self):
+        return sum(1 for op, _ in self.value if op == 'moveTo')
+
+    def getPen(self):
+        from fontTools.pens.recordingPen import RecordingPen
+        rec = RecordingPen()
+        rec.value = self.value
+        return rec
+
+
+class _DuckFont(dict):
+    def __init__(self, glyphs, upem=1000):
+        dict.__init__(self, glyphs)
+        self.lib = {}
+        self.info = type('I', (), {'unitsPerEm': upem})()
+
+
+def _closed_cubic_contour(c):
+    return [('moveTo', (c[0],)), ('curveTo', (c[1], c[2], c[3])), ('lineTo', (c[0],)), ('closePath', ())]
+
+
+@kernel('C13', funcs=['cu2qu/ufo.py:fonts_to_quadratic', 'cu2qu/ufo.py:_glyphs_to_quadratic', 'cu2qu/ufo.py:_segments_to_quadratic', 'cu2qu/ufo.py:_get_segments', 'cu2qu/ufo.py:_set_segments',
+                      'cu2qu/cu2qu.py:curves_to_quadratic'],
+        bounds='2-3 masters (duck-typed fonts) with one SYMBOLIC tolerance per master in [2, 40]; glyph "a" (a straight cubic) in every master, glyph "b" missing from the masters '
+               'named in the parameter (sparse glyph sets): after fonts_to_quadratic every glyph of every master is within THAT master\'s tolerance of its '
+               'original cubic, and same-named glyphs have the same number of points',
+        quick=[dict(missing=[0])], thorough=[dict(missing=m) for m in ([0], [], [1])], max_paths=60000)
+def fonts_conversion_uses_each_masters_tolerance(missing):
+    shapes = [CUBICS['arch'], CUBICS['s'], CUBICS['hook']]
+    n = 3 if len(missing) == 2 else 2
+    tols = [V.real('tol%d' % i, 2, 40) for i in range(n)]
+    fonts, orig = [], []
+    for i in range(n):
+        gl = {'a': _DuckGlyph(_closed_cubic_contour(CUBICS['line']))}
+        if i not in missing:
+            gl['b'] = _DuckGlyph(_closed_cubic_contour(shapes[i]))
+        orig.append({k: list(v.value) for k, v in gl.items()})
+        fonts.append(_DuckFont(gl))
+    try:
+        CU.fonts_to_quadratic(fonts, max_err=list(tols), remember_curve_type=False)
+    except ApproxNotFoundError:
+        ob('error-instead-of-worse-curve', True)
+        return
+    for i, f in enumerate(fonts):
+        for name, g in f.items():
+            cubic = [orig[i][name][0][1][0]] + list(orig[i][name][1][1])
+            q = [e for e in g.value if e[0] == 'qCurveTo']
+            ob('font%d.%s:converted' % (i, name), len(q) == 1)
+            if len(q) != 1:
+                continue
+            spline = [cubic[0]] + list(q[0][1])
+            _check_spline(cubic, spline, tols[i], 'font%d.%s:' % (i, name))
+    for name in ('a', 'b'):
+        counts = {len([e for e in f[name].value if e[0] == 'qCurveTo'][0][1]) for f in fonts if name in f and [e for e in f[name].value if e[0] == 'qCurveTo']}
+        ob(name + ':compatible-point-counts', len(counts) <= 1)
+
+
+# ------------------------------------------------------------------------------------------------ quadratic-to-cubic pen
+@kernel('C13', funcs=['pens/qu2cuPen.py:Qu2CuPen.filterContour', 'pens/qu2cuPen.py:Qu2CuPen._quadratics_to_curve', 'pens/filterPen.py:ContourFilterPen.closePath'],
+        bounds='closed contours of two or three single-off-curve quadratic segments with ALL coordinates symbolic (so "the explicit on-curve point is exactly midway '
+               'between its off-curve neighbours", in x and/or y, is a solver fork), passed through Qu2CuPen with all_cubic=False: the emitted outline is the '
+               'input outline (segments may be re-grouped with implied on-curve points only where the point really is the midpoint)',
+        quick=[dict(n=2), dict(n=3)])
+def qu2cu_pen_keeps_outline(n):
+    from fontTools.pens.qu2cuPen import Qu2CuPen
+    from fontTools.pens.recordingPen import RecordingPen
+    from harness.C14_pens import canon, outline_eq, P, replay
+    p0 = P('p0')
+    ev = [('moveTo', (p0,))]
+    for i in range(n):
+        ev.append(('qCurveTo', (P('c%d' % i), P('p%d' % (i + 1)))))
+    ev.append(('closePath', ()))
+    rec = RecordingPen()
+    pen = Qu2CuPen(rec, max_err=0.5, all_cubic=False)
+    replay(ev, pen)
+    observe('n_events', len(rec.value))
+    ob('same-outline', outline_eq(canon(rec.value), canon(ev)))
